@@ -245,7 +245,14 @@ pub fn sgr_param(r: &mut Rng) -> String {
         16 => format!("48;2;{};{};{}", r.n(256), r.n(256), r.n(256)),
         17 => format!("38:2:{}:{}:{}", r.n(256), r.n(256), r.n(256)),
         18 => format!("48:2::{}:{}:{}", r.n(256), r.n(256), r.n(256)),
-        19 => format!("38:2::{}:{}:{}", r.n(256), r.n(300), r.n(70000)),
+        19 => {
+            if r.chance(1, 2) {
+                format!("38:2::{}:{}:{}", r.n(256), r.n(300), r.n(70000))
+            } else {
+                // a non-empty colour-space id in the 6-part form (ignored, like an empty one)
+                format!("{}:2:{}:{}:{}:{}", r.pick(&["38", "48"]), r.range(1, 9), r.n(256), r.n(256), r.n(256))
+            }
+        }
         20 => r.pick(&["6", "8", "10", "26", "28", "50", "98", "108", "65535", "38", "48", "38;5", "48;2;1;2", "38:5", "38:2:1:2", "38;7", "1:2", "4:3"]).to_string(),
         21 => format!("{}", r.n(120)),
         22 => format!("38;5;{}", r.n(70000)),
